@@ -14,6 +14,7 @@ import (
 	"net"
 	"net/http"
 	"os"
+	"reflect"
 	"strings"
 	"testing"
 	"time"
@@ -87,6 +88,10 @@ type Case struct {
 	// Late (Recovery as application middleware only): the routes are declared
 	// and the healthy one is requested once before Recovery is installed with Use.
 	Late bool `json:"recovery_installed_after_first_request,omitempty"`
+	// OwnReturn: the application has mapped a ReturnHandler of its own (it
+	// writes a returned string and ignores everything else): what Recovery sends
+	// is not a handler's return value.
+	OwnReturn bool `json:"own_return_handler,omitempty"`
 }
 
 // plainWriter is the usual embedding wrapper: http.ResponseWriter and nothing else.
@@ -323,6 +328,13 @@ type app struct {
 
 func build(c Case) *app {
 	a := &app{f: flamego.NewWithLogger(io.Discard), reqHdr: c.ReqHdr}
+	if c.OwnReturn {
+		a.f.Map(flamego.ReturnHandler(func(ctx flamego.Context, vals []reflect.Value) {
+			if len(vals) == 1 && vals[0].Kind() == reflect.String {
+				_, _ = ctx.ResponseWriter().Write([]byte(vals[0].String()))
+			}
+		}))
+	}
 	for k := 0; k < c.Outer; k++ {
 		k := k
 		a.f.Use(func(ctx flamego.Context) {
@@ -592,6 +604,9 @@ func checkCase(c Case) (out evid.Outcome) {
 	if c.Twice {
 		out.Classes = append(out.Classes, "recovery-twice")
 	}
+	if c.OwnReturn {
+		out.Classes = append(out.Classes, "own-return-handler")
+	}
 	method := c.Method
 	if method == "" {
 		method = "GET"
@@ -761,6 +776,7 @@ func genCase(t *rapid.T) Case {
 	c.ReqHdr = []string{"", "", "", "accept-json", "upgrade", "accept-html", "x-real-ip-loopback", "x-forwarded-for-loopback", "remote-loopback", "remote-loopback-v6", "body-open", "body-short"}[rapid.IntRange(0, 11).Draw(t, "reqhdr")]
 	c.OuterWrites = c.Outer > 0 && !c.WrapWriter && rapid.IntRange(0, 4).Draw(t, "outerwrites") == 0
 	c.Twice = rapid.IntRange(0, 5).Draw(t, "twice") == 0
+	c.OwnReturn = rapid.IntRange(0, 4).Draw(t, "ownreturn") == 0
 	c.Late = c.RecoveryAt == "use" && rapid.IntRange(0, 4).Draw(t, "late") == 0
 	switch rapid.IntRange(0, 5).Draw(t, "site") {
 	case 0:
